@@ -232,8 +232,8 @@ def run(ctx):
         meta[job["id"]] = m
 
     replay_paths = list(enumerate(paths))
-    if not ctx.thorough and len(replay_paths) > 600:      # quick: a seeded sample (the laws are decided on all of them)
-        replay_paths = sorted(random.Random(ctx.seed + 1).sample(replay_paths, 600))
+    if not ctx.thorough and len(replay_paths) > 400:      # quick: a seeded sample (the laws are decided on all of them)
+        replay_paths = sorted(random.Random(ctx.seed + 1).sample(replay_paths, 400))
     for i, ap in replay_paths:
         f = formats[(i + ctx.seed) % len(formats)]
         sp = L.spell_path(ap, random.Random(f"{ctx.seed}:p:{i}"), own_ext=f)
@@ -244,11 +244,22 @@ def run(ctx):
         props = {k: L.spell_val(c["val"], k) for k in L.FIELDS}
         doc = L.enrich(rich_doc(f, ctx.seed))
         doc["props"] = props
-        add({"id": f"case:{i}", "fmt": f, "doc": doc, "sp": sp, "props": props}, kind="case", abstract=c, fmt=f)
+        add({"id": f"case:{i}", "fmt": f, "doc": doc, "sp": sp, "props": props, "thin": not ctx.thorough},
+            kind="case", abstract=c, fmt=f)
     for i, u in enumerate(units):
         ap = paths[(i * 7) % len(paths)]
         sp = L.spell_path(ap, random.Random(f"{ctx.seed}:u:{i}"), own_ext="rtf")
         add({"id": f"units:{i}", "fmt": "rtf", "data": L.units_rtf(u), "sp": sp, "units": u}, kind="units", abstract=u, fmt="rtf")
+
+    # well-formed containers whose picture payloads are not recognisable images (accepted by every extractor)
+    none_sp = {"root": "none", "dirs": [], "stem": "", "exts": [], "fexists": False, "dexists": False}
+    for f in formats:
+        if not L.doc_images(rich_doc(f, ctx.seed)):
+            continue
+        for how in sorted(L.IMAGE_DAMAGE):
+            doc = L.damage_images(L.enrich(rich_doc(f, ctx.seed)), how)
+            add({"id": f"img:{f}:{how}", "fmt": f, "doc": doc, "sp": dict(none_sp), "parg": None, "mat": False},
+                kind="imgdamage", abstract={"fmt": f, "images": how}, fmt=f)
 
     root, fixtures = _fixtures(3_000_000 if ctx.thorough else 450_000)
     if not fixtures:
@@ -302,10 +313,11 @@ def run(ctx):
             traces.append({"id": f"{j['id']}@{k}", "hdr": hdr, "ev": evs[k:k + L.MAX_EVENTS_PER_TRACE]})
             owner.append((j, r, k))
     ctx.log("extraction outcomes: " + ", ".join(f"{k[0]}/{k[1]}={n}" for k, n in sorted(stat.items())))
-    gen_total = sum(n for (k, s), n in stat.items() if k in ("path", "case", "units"))
-    gen_ok = sum(n for (k, s), n in stat.items() if k in ("path", "case", "units") and s == "ok")
+    gen_kinds = ("path", "case", "units", "imgdamage")
+    gen_total = sum(n for (k, s), n in stat.items() if k in gen_kinds)
+    gen_ok = sum(n for (k, s), n in stat.items() if k in gen_kinds and s == "ok")
     if gen_ok < 0.9 * gen_total:
-        bad = next(results[j["id"]] for j in jobs if meta[j["id"]]["kind"] in ("path", "case", "units")
+        bad = next(results[j["id"]] for j in jobs if meta[j["id"]]["kind"] in gen_kinds
                    and results[j["id"]]["status"] != "ok")
         raise MachineryError(f"only {gen_ok}/{gen_total} generated cases were extracted (e.g. {bad['id']}: {bad['status']} {bad['msg']})")
     traces_nonempty = [(t, o) for t, o in zip(traces, owner) if t["ev"]]
@@ -341,7 +353,7 @@ def run(ctx):
         if r["status"] == "ok" and m["kind"] != "fixture":
             ev.nontrivial((m["kind"], json.dumps(m.get("abstract"), sort_keys=True), m.get("file"), r.get("msg")))
     shown = 0
-    for want in ("path", "case", "units", "fixture", "mutant"):
+    for want in ("path", "case", "units", "imgdamage", "fixture", "mutant"):
         for j in jobs:
             m, r = meta[j["id"]], results[j["id"]]
             if m["kind"] == want and r["status"] == "ok" and r["events"]:
